@@ -82,8 +82,12 @@ def orient_cases(draw, name):
         pars[a + "_pd_type"] = draw(st.sampled_from(S.PD_TYPES_ABS))
         pars[a + "_pd_nsigma"] = draw(st.sampled_from([1.0, 2.0, 3.0]))
     if draw(st.integers(0, 2)) == 0:
-        pars.update(draw(S.dispersity(info, "2d", kmax=min(2, info.parameters.max_pd - len(jit)), kmin=1,
-                                      max_mesh=30, include_angles=False, allow_cut=False)))
+        # up to as many size distributions as the model allows beside the jitter (which of the dispersed
+        # parameters become the kernel's loop parameters depends on how many there are)
+        many = draw(st.booleans())
+        room = info.parameters.max_pd - len(jit)
+        pars.update(draw(S.dispersity(info, "2d", kmax=max(1, min(room if many else 2, room)), kmin=1,
+                                      max_mesh=48 if many else 30, include_angles=False, allow_cut=False)))
     pars["scale"] = S.sig(draw(st.floats(0.1, 5)), 4)
     pars["background"] = draw(st.sampled_from([0.0, 0.01]))
     qx, qy = draw(S.q2d(1, 5, lo=-2.5, hi=-0.5))
@@ -242,6 +246,6 @@ def plan(tier):
 def run_shard(ctx, spec):
     quick = ctx.tier == "quick"
     for i, name in enumerate(spec["oriented"]):
-        ctx.explore("orient", orient_cases(name), 90 if quick else 1800, salt=i, shrink_examples=60)
+        ctx.explore("orient", orient_cases(name), 130 if quick else 1800, salt=i, shrink_examples=60)
     for i, name in enumerate(spec["iso"]):
         ctx.explore("iso", iso_cases(name), 15 if quick else 200, salt=100 + i, shrink_examples=30)
